@@ -1,4 +1,5 @@
 import Juniper.Generated.Par
+import Juniper.Generated.ParSync
 /-!
 # Models of `parallel.MapStream` and `parallel.MapIterator` — C14 (and the MapStream clauses of C08/C09)
 
@@ -11,6 +12,21 @@ pairs with "peek/pop the minimum index" (container/xheap is verified separately,
 
 Guards, channel capacities, token count and `select` arm tables are the definitions regenerated from
 `parallel/parallel.go` (`Juniper.Gen.Par`); they enter through the records `Stream.Code` / `Iter.Code`.
+So do three *disciplines* computed from `Juniper.Gen.ParSync` (ordered synchronisation operations with
+the receiver resolved to the struct field, origin of the context, call sites of `cancel`):
+
+* `Iter.sectionsAtomic` — MapIterator's two critical sections lock the same `sync.Mutex` field, which is
+  the locker of the `*sync.Cond` both use; the wait is a `for` loop; increment / decrement / `Signal` are
+  inside; nothing else touches `inFlight` or the lock. Only then are `dAcquire` ("Lock; check; park or
+  take a slot; Unlock") and the lock section of `cYield` atomic labels. When it does not hold the LTS has
+  the behaviour such code has: the dispatcher's check and its parking are two steps (`dAcquire` to
+  `.checked`, then `dPark`), a `cYield` may come in between and its `Signal` is lost.
+* `Stream.ctxPlain` — the context handed to the source, to `f` and to the selects is
+  `errgroup.WithContext(context.WithCancel(<the caller's ctx>))` and `cancel` is called by `Close` only.
+  Otherwise the environment label `libCtxEnd` — that context ends by the library's own
+  doing, e.g. a timeout — is enabled.
+* `Stream.code.closeCancels` / `closeWaits` — `Close` is `s.cancel()` followed by `s.eg.Wait()`.
+  Otherwise `closeCall` does not cancel / `cCloseDone` does not wait.
 Core Lean only.
 -/
 namespace Juniper.Model.ParMap
@@ -72,8 +88,34 @@ structure Code where
   lastCloses : Bool
   /-- `s.ready <- struct{}{}` when yielding -/
   releases : Bool
+  /-- `s.cancel()` is the first statement of `Close` -/
+  closeCancels : Bool
+  /-- `_ = s.eg.Wait()` in `Close` -/
+  closeWaits : Bool
+  /-- the context handed to the source / `f` / the selects is `errgroup.WithContext(context.WithCancel(ctx))`,
+  cancelled by `Close` only (`ctxPlain`); otherwise it can end by the library's own doing (`libCtxEnd`) -/
+  ctxPlain : Bool
   /-- remaining presence facts -/
   structural : Bool
+
+/-- **Origin of the context** (`Juniper.Gen.ParSync`): the only assignments to `ctx` / `cancel` / `eg` in the
+whole body of `MapStream` (closures included) are `ctx, cancel := context.WithCancel(ctx)` followed by
+`eg, ctx := errgroup.WithContext(ctx)`; no function literal re-binds these names; `cancel` is used twice:
+stored in the returned `mapStream` and called by `mapStream.Close`; `context` / `errgroup` are the standard
+packages. Then the context the dispatcher passes to the source's `Next`, the workers pass to `f` and all
+their selects wait on is done only when the caller's context is, when `Close` was called, or when the
+errgroup recorded a failure — never by the passage of time. -/
+def ctxPlainOf (assigns : List (String × String)) (shadows : List String) (cancelUses imports : List (String × String)) :
+    Bool :=
+  assigns == [("ctx, cancel", "context.WithCancel(ctx)"), ("eg, ctx", "errgroup.WithContext(ctx)")]
+  && shadows == []
+  && cancelUses == [("MapStream", "cancel: cancel"), ("mapStream.Close", "s.cancel()")]
+  && imports.contains ("", "context")
+  && imports.contains ("", "golang.org/x/sync/errgroup")
+
+/-- `ctxPlainOf` of the source as it is now -/
+def ctxPlain : Bool :=
+  ctxPlainOf ParSync.msCtxAssigns ParSync.msCtxShadows ParSync.msCancelUses ParSync.parImports
 
 /-- `parallel.MapStream`, `mapStream.Next`, `mapStream.Close` as they are in the source now. -/
 def code : Code where
@@ -99,13 +141,15 @@ def code : Code where
   closesIn := Par.msDispClosesIn
   lastCloses := Par.msLastCloses
   releases := Par.msNextReleases
+  closeCancels := Par.msCloseCancels && Par.msCloseCancelBeforeWait
+  closeWaits := Par.msCloseWaits
+  ctxPlain := ctxPlain
   structural := Par.msBufClampAssigns && Par.msTokenLoopSends && Par.msCancelCtx && Par.msErrgroup
     && Par.msCancelOutsideErrgroup && Par.msDispPulls && Par.msDispEndBreaks && Par.msDispReturnsErr
     && Par.msDispWaitCtxReturns && Par.msDispSendCtxReturns && Par.msDispNumbers && Par.msDispReturnsNil
     && Par.msWorkerCalls && Par.msWorkerReturnsErr && Par.msWorkerCtxReturns && Par.msWorkerReturnsNil
     && Par.msNextPops && Par.msNextAdvances && Par.msNextYields && Par.msNextWaits
     && Par.msNextReturnsErr && Par.msNextReturnsEnd && Par.msNextPushes && Par.msNextCtxReturns
-    && Par.msCloseCancels && Par.msCloseWaits && Par.msCloseCancelBeforeWait
 
 def ctxDoneArm : Arm := .recv "ctx.Done()"
 
@@ -141,6 +185,9 @@ structure Code.Sound (c : Code) : Prop where
   closesIn : c.closesIn = true
   lastCloses : c.lastCloses = true
   releases : c.releases = true
+  closeCancels : c.closeCancels = true
+  closeWaits : c.closeWaits = true
+  ctxPlain : c.ctxPlain = true
   structural : c.structural = true
 
 structure Cfg where
@@ -324,10 +371,14 @@ inductive Label where
   | closeCall                    -- environment
   | cCloseDone
   | parentCancel                 -- environment
+  /-- environment: the library's context ends by the library's own doing (a timeout, a stray `cancel()`);
+  enabled only when `ctxPlain` does not hold -/
+  | libCtxEnd
   deriving DecidableEq, Repr
 
 def Label.isEnv : Label → Bool
-  | .srcRet _ | .srcCloseRet | .fRet _ _ | .nextCall _ | .consCtxExpire | .closeCall | .parentCancel => true
+  | .srcRet _ | .srcCloseRet | .fRet _ _ | .nextCall _ | .consCtxExpire | .closeCall | .parentCancel
+  | .libCtxEnd => true
   | _ => false
 
 def ctxDone (s : St) : Bool := s.ctxCause.isSome
@@ -515,17 +566,25 @@ def step (cfg : Cfg) (s : St) : Label → Option St
   | .closeCall =>
     match s.cons with
     | .idle =>
-      some { s with cons := .closeWait, closeCalled := true,
-                    ctxCause := if s.ctxCause.isSome then s.ctxCause else some .close }
+      if cfg.code.closeCancels then
+        some { s with cons := .closeWait, closeCalled := true,
+                      ctxCause := if s.ctxCause.isSome then s.ctxCause else some .close }
+      else some { s with cons := .closeWait, closeCalled := true }
     | _ => none
   | .cCloseDone =>
     match s.cons with
-    | .closeWait => if s.egLive == 0 then some { s with cons := .closed } else none
+    | .closeWait =>
+      if cfg.code.closeWaits then
+        if s.egLive == 0 then some { s with cons := .closed } else none
+      else some { s with cons := .closed }
     | _ => none
   | .parentCancel =>
     if s.parentCancelled then none else
     some { s with parentCancelled := true,
                   ctxCause := if s.ctxCause.isSome then s.ctxCause else some .parent }
+  | .libCtxEnd =>
+    if cfg.code.ctxPlain then none
+    else if s.ctxCause.isNone then some { s with ctxCause := some .lib } else none
 
 inductive Reach (cfg : Cfg) : St → Prop where
   | init : Reach cfg (init cfg)
@@ -586,7 +645,39 @@ structure Code where
   lastCloses : Bool
   signals : Bool
   waits : Bool
+  /-- both critical sections use the same mutex, which is the cond's locker (`sectionsAtomic`) -/
+  sectionsAtomic : Bool
   structural : Bool
+
+/-- **Lock / cond discipline of MapIterator** (`Juniper.Gen.ParSync`: ordered synchronisation operations with
+the receiver resolved to the struct field, `it` = the `*mapIterator`). The dispatcher's section is
+`Lock l; for <full> { Wait c }; inFlight++; Unlock l` inside its loop, `Next`'s is
+`Lock l; inFlight--; if <cond> { Signal c }; Unlock l` inside the yield branch, with the *same* lock field
+`l` of type `sync.Mutex` and the *same* `*sync.Cond` field `c`, whose one `sync.NewCond(&l)` names `l`;
+`inFlight` is an `int` field; the rest of `MapIterator` (constructor, comparison, workers) contains no
+lock / cond operation and no access to `inFlight` besides that `NewCond`; no other function of the package
+mentions `.inFlight` / `.cond`; `sync` is the standard package. (`bufferSize` / the two guards are the
+facts `miFull`, `miNextSignalCond`.) -/
+def sectionsAtomicOf (disp next condInit fields rest : List (String × String)) (touchers : List String)
+    (imports : List (String × String)) : Bool :=
+  match disp, next, condInit with
+  | [("for", ""), ("Lock", l1), ("for", _), ("Wait", c1), ("}", _), ("inc", x1), ("Unlock", u1), ("}", _)],
+    [("for", ""), ("if", _), ("Lock", l2), ("dec", x2), ("if", _), ("Signal", c2), ("}", _), ("Unlock", u2),
+     ("}", _), ("}", _)],
+    [(c0, l0)] =>
+      l1 == u1 && l2 == u2 && l1 == l2 && c1 == c2 && c0 == c1 && l0 == l1 && x1 == x2
+      && fields.lookup l1 == some "sync.Mutex"
+      && fields.lookup c1 == some "*sync.Cond"
+      && fields.lookup x1 == some "int"
+      && rest == [("NewCond", c0 ++ " = sync.NewCond(&" ++ l0 ++ ")")]
+      && touchers == ["MapIterator", "mapIterator.Next"]
+      && imports.contains ("", "sync")
+  | _, _, _ => false
+
+/-- `sectionsAtomicOf` of the source as it is now -/
+def sectionsAtomic : Bool :=
+  sectionsAtomicOf ParSync.miDispSync ParSync.miNextSync ParSync.miCondInit ParSync.miFields ParSync.miRestSync
+    ParSync.miTouchers ParSync.parImports
 
 def code : Code where
   clampLow := Par.miClampLow
@@ -604,6 +695,7 @@ def code : Code where
   lastCloses := Par.miLastCloses
   signals := Par.miNextSignals
   waits := Par.miWaits
+  sectionsAtomic := sectionsAtomic
   structural := Par.miBufClampAssigns && Par.miIncrements && Par.miIncBeforeSend && Par.miNumbers
     && Par.miWorkerCalls && Par.miWorkerSends && Par.miNextPops && Par.miNextAdvances
     && Par.miNextDecrements && Par.miNextRecvs && Par.miNextEnds && Par.miNextPushes
@@ -624,6 +716,7 @@ structure Code.Sound (c : Code) : Prop where
   lastCloses : c.lastCloses = true
   signals : c.signals = true
   waits : c.waits = true
+  sectionsAtomic : c.sectionsAtomic = true
   structural : c.structural = true
 
 structure Cfg where
@@ -643,6 +736,9 @@ inductive DPc where
   | inNext
   /-- holding item `v`, at `mIter.m.Lock(); for mIter.inFlight >= bufferSize` -/
   | acquire (v : Nat)
+  /-- has found `inFlight >= bufferSize` and is not yet registered with the cond: a state that exists only
+  when the two critical sections are not atomic with respect to each other (`sectionsAtomic = false`) -/
+  | checked (v : Nat)
   /-- parked in `cond.Wait()` -/
   | parked (v : Nat)
   | sendIn (v : Nat)
@@ -709,6 +805,9 @@ inductive Label where
   /-- environment: the source iterator returns an item or its end -/
   | srcRet (r : Option Nat)
   | dAcquire
+  /-- the dispatcher that has seen the buffer full registers with the cond (a step of its own only when
+  `sectionsAtomic = false`) -/
+  | dPark
   | dSend (w : Nat)
   /-- environment: `f` returns `v` in worker `w` -/
   | fRet (w : Nat) (v : Nat)
@@ -749,8 +848,15 @@ def step (cfg : Cfg) (s : St) : Label → Option St
     match s.disp with
     | .acquire v =>
       if cfg.code.full s.inFlight (buf cfg) then
-        if cfg.code.waits then some { s with disp := .parked v } else none
+        if cfg.code.waits then
+          if cfg.code.sectionsAtomic then some { s with disp := .parked v }
+          else some { s with disp := .checked v }
+        else none
       else some { s with disp := .sendIn v, inFlight := s.inFlight + 1 }
+    | _ => none
+  | .dPark =>
+    match s.disp with
+    | .checked v => if cfg.code.sectionsAtomic then none else some { s with disp := .parked v }
     | _ => none
   | .dSend w =>
     match s.disp, s.ws[w]? with
@@ -827,7 +933,7 @@ theorem reach_of_run {cfg : Cfg} {s s' : St} {ls : List Label} (h : Reach cfg s)
     · simp at hr
 
 def internalLabels (s : St) : List Label :=
-  [.dPull, .dAcquire, .cYield, .cRecvClosed]
+  [.dPull, .dAcquire, .dPark, .cYield, .cRecvClosed]
   ++ (List.range s.ws.length).flatMap (fun w => [.dSend w, .wHandOff w, .wExitIdle w])
 
 def fRunning (s : St) : Nat := s.ws.countP (fun pc => match pc with | .inF _ => true | _ => false)
